@@ -468,7 +468,7 @@ func malformed(id int) O {
 	doc := docs[rng.Intn(len(docs))]
 	res := T{}
 	for _, kind := range []string{"json", "yaml", "sio-file", "sio-file-yaml-name"} {
-		outcome, lerr, cerr, werr := "returned", "", "", ""
+		outcome, lerr, cerr, werr, cerr2 := "returned", "", "", "", "n/a"
 		func() {
 			defer func() {
 				if r := recover(); r != nil {
@@ -501,13 +501,29 @@ func malformed(id int) O {
 			err = s.Compile(context.Background(), nil, true)
 			cerr = compileErr(err)
 			if err != nil {
+				// what Compile rejects it rejects again (the same object, compiled a second time)
+				cerr2 = compileErr(s.Compile(context.Background(), nil, true))
+				// ... and so is the same document read once more (a new object with the same sources)
+				if kind == "json" || kind == "yaml" {
+					var again core.Spec
+					var lerr2 error
+					if kind == "json" {
+						lerr2 = json.Unmarshal([]byte(doc), &again)
+					} else {
+						lerr2 = jyaml.Unmarshal([]byte(doc), &again)
+					}
+					if lerr2 == nil && again.Compile(context.Background(), nil, true) == nil {
+						cerr2 = ""
+					}
+				}
 				return
 			}
+			cerr2 = ""
 			w, err := s.Walk(context.Background(), &core.State{NodeName: "start", Bs: match.Bindings{}}, []interface{}{map[string]interface{}{"k": 1.0}}, nil, nil)
 			werr = compileErr(err)
 			_ = w
 		}()
-		res = append(res, O{"as": kind, "outcome": outcome, "load": lerr, "compile": cerr, "walk": werr})
+		res = append(res, O{"as": kind, "outcome": outcome, "load": lerr, "compile": cerr, "walk": werr, "compile2": cerr2})
 	}
 	return O{"id": id, "kind": "malformed", "doc": doc, "results": res, "raw": enc.Canon(O{"doc": doc})}
 }
